@@ -67,6 +67,25 @@ type Recorder struct {
 	Inconclusive string  `json:"inconclusive,omitempty"`
 	flushEvery    int
 	shardOverride string
+	// ExtraDistinct counts non-trivial cases that are distinct by construction (complete enumerations),
+	// for which no hash needs to be kept
+	ExtraDistinct int `json:"extra_distinct"`
+}
+
+// CaseEnumerated records one case of a complete enumeration (distinct by construction).
+func (r *Recorder) CaseEnumerated(nontrivial bool, sample any, labels ...string) {
+	r.mu.Lock()
+	defer r.mu.Unlock()
+	r.Evals++
+	for _, l := range labels {
+		r.Labels[l]++
+	}
+	if nontrivial {
+		r.ExtraDistinct++
+		if len(r.Samples) < 4 && sample != nil {
+			r.Samples = append(r.Samples, sample)
+		}
+	}
 }
 
 func NewRecorder(prop, name, rule string) *Recorder {
@@ -114,7 +133,7 @@ func (r *Recorder) Label(l string) {
 func (r *Recorder) Flush() {
 	r.mu.Lock()
 	defer r.mu.Unlock()
-	r.NonTrivialN = len(r.nontrivial)
+	r.NonTrivialN = len(r.nontrivial) + r.ExtraDistinct
 	hs := make([]string, 0, len(r.nontrivial))
 	for h := range r.nontrivial {
 		hs = append(hs, strconv.FormatUint(h, 16))
